@@ -151,8 +151,10 @@ def run(ctx):
     # ---- D3/D4 channelize incl. cache protocol
     ctx.clause = 'D3'
     ch = ctx.func(PF + 'PolyphaseFilterbank.channelize')
+    T.SYMKIND['x'] = 'array'       # the voltage chunk is a numpy array
     agree_ref(ctx, ch, REF_CHANNELIZE, 'channelize = fft(frontend(cache ++ x), B)[:, :B//2]/sqrt(B); cache = tail T*B of the input',
               what=('return', 'heap'), no_inline=(PF + 'pfb_frontend',), expand=False)
+    T.SYMKIND.pop('x', None)
     ctx.clause = 'D4'
     w = who_writes(ctx, 'cache', None)
     allowed = {PF + 'PolyphaseFilterbank.' + m for m in ('__init__', '_reset_cache', 'channelize')}
